@@ -2,7 +2,7 @@ SPECIFICATION Spec
 CONSTANTS K = 3
 VIEW Vw
 INVARIANT InvMutualInverse
-PROPERTY ActTotal
-PROPERTY ActSidesSymmetric
+INVARIANT InvTotal
+INVARIANT InvSidesSymmetric
 PROPERTY ActRefusedUnchanged
 CHECK_DEADLOCK FALSE
